@@ -197,10 +197,10 @@ def parity_rule(chk, src, tn, scope=("ekore.", "eko."), rule="parity-flag-is-def
             r = src.resolve_call(f, c)
             if not (isinstance(r, Func) and r.qname in flagged):
                 continue
-            idx = r.params.index("is_singlet")
-            val = next((k.value for k in c.keywords if k.arg == "is_singlet"), c.args[idx] if len(c.args) > idx else None)
+            val = src.call_arg(r, c, "is_singlet")
             is_get = r.qname == fget.qname
-            key = ast.unparse(c.args[0]).split(".")[-1] if (is_get and c.args) else None
+            key_arg = src.call_arg(r, c, fget.params[0]) if is_get else None
+            key = ast.unparse(key_arg).split(".")[-1] if key_arg is not None else None
             if is_get and key not in parity_keys:
                 n_sites["parity-independent lookup"] += 1
                 continue
@@ -213,7 +213,8 @@ def parity_rule(chk, src, tn, scope=("ekore.", "eko."), rule="parity-flag-is-def
             elif isinstance(val, ast.Constant) and isinstance(val.value, bool):
                 n_sites[str(val.value)] += 1
                 if is_get:
-                    per_func_flags[(q, ast.unparse(c.args[1]) if len(c.args) > 1 else "")].add(val.value)
+                    cache_arg = src.call_arg(r, c, fget.params[1])
+                    per_func_flags[(q, ast.unparse(cache_arg) if cache_arg is not None else "")].add(val.value)
             elif isinstance(val, ast.Name) and val.id == "is_singlet" and "is_singlet" in f.params:
                 n_sites["pass-through"] += 1
             elif isinstance(val, ast.Name) and _definite_local(f, val.id, tn.get(q, set())):
